@@ -52,7 +52,37 @@ fn bounds(ch: &mut Choices, case: &mut Case) -> Result<(), String> {
     let low = ch.chance(50);
     let base_year = if low { 1900 } else { 9992 };
     let cfg = Cfg { max_rules: 3, base_year, wide_years: ch.chance(30), dense: ch.chance(30), max_day_offset: 40, ..Cfg::default() };
-    let g = gen_case(ch, &cfg)?;
+    let g = if ch.chance(12) {
+        // what the last day before the range spills into its first day, and the last day of the
+        // range past its end: selectors matching Dec 31 / the last week, spans reaching the next day
+        let text = format!(
+            "{}{} {}{}",
+            ch.pick(&["", "24/7; ", "Jan-Nov unknown, ", "Mo-Su 10:00-12:00; "]),
+            ch.pick(&["Dec 31", "Dec 24-31", "Dec 31-Dec 31", "week 52", "Dec Su", "Dec", "Dec 30-Jan 1 -1 day", "Su[-1]", "Dec Fr[-1]"]),
+            ch.pick(&["00:00-48:00", "12:00-48:00", "20:00-48:00", "24:00-48:00", "22:00-26:00", "10:00-30:00", "23:59-24:01"]),
+            ch.pick(&["", " off", " closed", " unknown", " open \"x\""])
+        );
+        let holidays = crate::gen::ctx::gen_holidays(ch, base_year);
+        let ast = opening_hours_syntax::parse(&text).map_err(|e| format!("constructed sentence `{text}` rejected: {e}"))?;
+        let oh = OpeningHours::parse(&text)
+            .map_err(|e| format!("constructed sentence `{text}` rejected: {e}"))?
+            .with_context(opening_hours::Context::default().with_holidays(holidays.holidays.clone()));
+        case.label("spill_across_a_bound_of_the_range");
+        crate::props::common::GenCase { text, denoted: ast.clone(), ast, oh, holidays, base_year }
+    } else if ch.chance(25) {
+        // rare recurrences and spans up to 48:00 next to the bounds (`Dec 31 00:00-48:00`, `Jan 1-Mo`,
+        // shifted holidays): what the day before 1900-01-01 / the day after 9999-12-31 contribute
+        let text = crate::gen::expr::gen_rare_expr(ch, if low { 1899 } else { 9996 });
+        let holidays = crate::gen::ctx::gen_holidays(ch, base_year);
+        let ast = opening_hours_syntax::parse(&text).map_err(|e| format!("constructed sentence `{text}` rejected: {e}"))?;
+        let oh = OpeningHours::parse(&text)
+            .map_err(|e| format!("constructed sentence `{text}` rejected: {e}"))?
+            .with_context(opening_hours::Context::default().with_holidays(holidays.holidays.clone()));
+        case.label("rare_recurrence_expression");
+        crate::props::common::GenCase { text, denoted: ast.clone(), ast, oh, holidays, base_year }
+    } else {
+        gen_case(ch, &cfg)?
+    };
     label_expr(&g.ast, case);
     let oh: &OpeningHours = &g.oh;
     let text = &g.text;
@@ -232,7 +262,7 @@ pub fn property() -> Property {
         id: "C08",
         subs: vec![SubCheck {
             name: "bounds",
-            rule: "generated expressions whose years are drawn next to 1900 or 9999 (selectors straddling the bounds, spans spilling past 9999-12-31) x 3 instants concentrated within 2 days of 1900-01-01 and 10000-01-01, exactly on / one second or minute next to them, far outside (years -262000..262000) and inside: state/schedule closed outside; next_change never before 1900, never >= 10000, > t, none beyond the range, and compared exactly with a forward scan when t < 1900 (first non-closed instant from 1900-01-01T00:00, also computed with the reference model of the documented semantics over the first 46 days of 1900 when the expression is in the model's decided domain) or t within the last 6 000 days; iter_range / iter_from intervals inside [from, min(to, 10000-01-01)], gap-free, closed outside the range; non-trivial = an exact next_change comparison from before 1900 or near 9999 was made",
+            rule: "generated expressions whose years are drawn next to 1900 or 9999 (selectors straddling the bounds, spans spilling past 9999-12-31; an eighth are constructed spills across a bound (selectors matching Dec 31 / the last week with spans reaching the next day), a quarter constructed rare recurrences: year-end dates with offsets, spans up to 48:00, shifted holidays, with calendars reaching into 1899) x 3 instants concentrated within 2 days of 1900-01-01 and 10000-01-01, exactly on / one second or minute next to them, far outside (years -262000..262000) and inside: state/schedule closed outside; next_change never before 1900, never >= 10000, > t, none beyond the range, and compared exactly with a forward scan when t < 1900 (first non-closed instant from 1900-01-01T00:00, also computed with the reference model of the documented semantics over the first 46 days of 1900 when the expression is in the model's decided domain) or t within the last 6 000 days; iter_range / iter_from intervals inside [from, min(to, 10000-01-01)], gap-free, closed outside the range; non-trivial = an exact next_change comparison from before 1900 or near 9999 was made",
             f: bounds,
             text_f: None,
             cases_quick: 8_000,
